@@ -36,14 +36,11 @@ variable {D : Type}
 
 /-! ## codecs -/
 
-/-- sqlite rows hold exact integer µs; reading goes through `datetime.fromtimestamp(v / 1e6)`
-    twice, a subtraction and the ms floor of the `Event` constructor: the identity for ms-aligned
-    starts later than −2^32·10^6 µs (1833-11-24: every wall-clock date of 1970 at any UTC offset is
-    covered, also where its UTC instant precedes the epoch) with non-negative duration ending before
-    2^32·10^6 µs (2106-02-07) -/
-theorem sqlite_roundtrip (e : Ev D) (h0 : -(2 ^ 32 * 10 ^ 6) < e.ts) (hms : 1000 ∣ e.ts) (hd : 0 ≤ e.dur)
-    (h1 : e.ts + e.dur < 2 ^ 32 * 10 ^ 6) : Codec.sqliteDecode e = e :=
-  Codec.sqliteDecode_id e (by omega) hms hd (by omega)
+/-- sqlite rows hold exact integer µs and are read back with integer arithmetic (repairs F9, F24);
+    what is left is the ms floor of the `Event` constructor: the identity for every ms-aligned
+    instant — before 1970, after 2100, any date a `datetime` can hold — and every duration -/
+theorem sqlite_roundtrip (e : Ev D) (hms : 1000 ∣ e.ts) : Codec.sqliteDecode e = e :=
+  Codec.sqliteDecode_id e hms
 
 /-- peewee stores `duration.total_seconds()` (a double) and reads `timedelta(seconds=float)`:
     the identity on every duration of 0 … 2^43 µs (≈ 101 days) at microsecond granularity -/
@@ -91,7 +88,7 @@ theorem get_after_insert_sqlite {s s' : Sqlite.St D} {b : String} {e : Ev D} {i 
     ∃ m es, Sqlite.view s b = some (m, es) ∧
       Sqlite.view s' b = some (m, es ++ [{ e with id := some i }]) ∧
       Sqlite.getEvent s' b i = some { e with id := some i } ∧
-      (-(2 ^ 32 * 10 ^ 6) < e.ts → 1000 ∣ e.ts → 0 ≤ e.dur → e.ts + e.dur < 2 ^ 32 * 10 ^ 6 →
+      (1000 ∣ e.ts →
         (Sqlite.getEvent s' b i).map Codec.sqliteDecode = some { e with id := some i } ∧
         (es ++ [{ e with id := some i }]).map Codec.sqliteDecode =
           es.map Codec.sqliteDecode ++ [{ e with id := some i }]) := by
@@ -103,9 +100,9 @@ theorem get_after_insert_sqlite {s s' : Sqlite.St D} {b : String} {e : Ev D} {i 
   have hg : Sqlite.getEvent s' b i = some (Spec.withId e i) := by
     rw [Sqlite.getEvent_eq hI' hv']
     exact Spec.find_of_nodup (Sqlite.ids_nodup hI' hv').1 (by simp) rfl
-  refine ⟨m, es, hs, hv', hg, fun h0 hms hd h1 => ?_⟩
+  refine ⟨m, es, hs, hv', hg, fun hms => ?_⟩
   have hc : Codec.sqliteDecode (Spec.withId e i) = Spec.withId e i :=
-    sqlite_roundtrip _ h0 hms hd h1
+    sqlite_roundtrip _ hms
   exact ⟨by rw [hg]; exact congrArg some hc, by rw [List.map_append, List.map_singleton, hc]⟩
 
 /-- sqlite, bulk insertion of id-less events: pairwise distinct ids, none of them in use in any
@@ -119,7 +116,7 @@ theorem bulk_insert_sqlite {s s' : Sqlite.St D} {b : String} {evs : List (Ev D)}
       (∀ i ∈ ids, ∀ b', i ∉ Spec.ids (Sqlite.view s) b') ∧
       Sqlite.view s' b = some (m, es ++ (evs.zip ids).map (fun p => { p.1 with id := some p.2 })) ∧
       (∀ p ∈ evs.zip ids, Sqlite.getEvent s' b p.2 = some { p.1 with id := some p.2 }) ∧
-      ((∀ e ∈ evs, -(2 ^ 32 * 10 ^ 6) < e.ts ∧ 1000 ∣ e.ts ∧ 0 ≤ e.dur ∧ e.ts + e.dur < 2 ^ 32 * 10 ^ 6) →
+      ((∀ e ∈ evs, 1000 ∣ e.ts) →
         ((evs.zip ids).map (fun p => { p.1 with id := some p.2 })).map Codec.sqliteDecode =
           (evs.zip ids).map (fun p => { p.1 with id := some p.2 })) := by
   obtain ⟨ids, hlen, hnd, hfresh, hv⟩ := Sqlite.insertMany_view hI hb h
@@ -136,8 +133,7 @@ theorem bulk_insert_sqlite {s s' : Sqlite.St D} {b : String} {evs : List (Ev D)}
       (List.mem_append_right _ (List.mem_map.mpr ⟨p, hp, rfl⟩)) rfl
   · rw [List.map_map]
     refine List.map_congr_left fun p hp => ?_
-    obtain ⟨h0, hms, hd, h1⟩ := hr p.1 (List.of_mem_zip hp).1
-    exact sqlite_roundtrip (Spec.withId p.1 p.2) h0 hms hd h1
+    exact sqlite_roundtrip (Spec.withId p.1 p.2) (hr p.1 (List.of_mem_zip hp).1)
 
 /-! ## memory -/
 
@@ -345,13 +341,18 @@ theorem heap_insert_returns {s : State} (h : Reachable s) {b : String} {r : Ref}
     region (2041) that the float encoding of the pinned tree got wrong; the last supported day -/
 example : Codec.sqliteDecode (⟨some 3, 1700000000123000, 1234567, 7⟩ : Ev Nat) =
     ⟨some 3, 1700000000123000, 1234567, 7⟩ :=
-  sqlite_roundtrip _ (by decide) (by decide) (by decide) (by decide)
+  sqlite_roundtrip _ (by decide)
 example : Codec.sqliteDecode (⟨none, 2250741852732000, 2193231764772, ()⟩ : Ev Unit) =
     ⟨none, 2250741852732000, 2193231764772, ()⟩ :=
-  sqlite_roundtrip _ (by decide) (by decide) (by decide) (by decide)
+  sqlite_roundtrip _ (by decide)
+/-- year 9000, and year 500 (far outside what a double resolves to the microsecond) -/
+example : Codec.sqliteDecode (⟨some 2, 221845392000123000, 999999999999, ()⟩ : Ev Unit) =
+    ⟨some 2, 221845392000123000, 999999999999, ()⟩ := sqlite_roundtrip _ (by decide)
+example : Codec.sqliteDecode (⟨some 2, -46388678399877000, 1, ()⟩ : Ev Unit) =
+    ⟨some 2, -46388678399877000, 1, ()⟩ := sqlite_roundtrip _ (by decide)
 /-- 1970-01-01T00:30+01:00: the wall-clock date is in 1970, the UTC instant is 30 minutes before the epoch -/
 example : Codec.sqliteDecode (⟨some 1, -1800000000, 60000001, ()⟩ : Ev Unit) = ⟨some 1, -1800000000, 60000001, ()⟩ :=
-  sqlite_roundtrip _ (by decide) (by decide) (by decide) (by decide)
+  sqlite_roundtrip _ (by decide)
 example : Codec.peeweeDur 2592000000001 = 2592000000001 :=
   peewee_duration_roundtrip _ (by decide) (by decide)
 
